@@ -34,7 +34,7 @@ class DiluteOp(clib.Op):
                 'accept': ['C11', 'C03'], 'nonneg': ['C03'], 'vol': ['C10'], 'frame': ['C04'], 'fresh': ['C04'],
                 'safe': ['C03', 'C11']}
     MIXTURES = {'binary': ('solute', 'solvent'), 'solute-only': ('solute',), 'ternary': ('solute', 'solvent', 'other'),
-                'with-enzyme': ('solute', 'solvent', 'enzyme')}
+                'with-enzyme': ('solute', 'solvent', 'enzyme'), 'binary-named': ('solute', 'solvent')}     # -named: dilute(..., name=<new name>)
     TIMEOUT = 40000
 
     def cases(self, tier):
@@ -47,6 +47,8 @@ class DiluteOp(clib.Op):
                 out.append((2, pair, 'binary', 'inf'))
             out.append((1, ('g', 'L'), 'solute-only', 'inf'))
             out.append((1, ('mol', 'L'), 'binary', 'finite'))
+            out.append((1, ('mol', 'L'), 'binary-named', 'inf'))
+            out.append((2, ('g', 'g'), 'binary-named', 'finite'))
             return out
         for k in (1, 2):
             for pair in PAIRS:
@@ -80,7 +82,10 @@ class DiluteOp(clib.Op):
     def invoke(self, I, st, case):
         C, terms, keys, allkeys, amounts, c = st
         nb, db = case[1]
-        return vc.call(I, self.FN, [C.obj, SubV(terms['solute']), SegStr([NumHole(c), ' ', f'{nb}/{db}']), SubV(terms['solvent'])])
+        args = [C.obj, SubV(terms['solute']), SegStr([NumHole(c), ' ', f'{nb}/{db}']), SubV(terms['solvent'])]
+        if case[2].endswith('-named'):
+            args.append(NameV(z3.Const('newname', Name)))
+        return vc.call(I, self.FN, args)
 
     def emit(self, I, out, st, case, finite=None):
         k, (nb, db), mix, cap = case
@@ -250,6 +255,7 @@ class CreateFromOp(clib.Op):
             out.append(('substance', ('g', 'g'), 'g', src))
         out.append(('container', ('mol', 'L'), 'mL', 'binary'))
         out.append(('container-with-solute', ('mol', 'L'), 'mL', 'binary'))
+        out.append(('container-with-solute', ('L', 'L'), 'mL', 'binary'))      # volume numerator + a solvent container holding the solute
         return out
 
     def setup(self, I, case, finite=None):
@@ -307,6 +313,19 @@ class CreateFromOp(clib.Op):
             n1, d1 = conc_of(I, sol_amt, allkeys, solute, nb, db)
             I.oblige('ensures[conc]', z3.And(n1 <= c * d1 * (1 + tol), n1 >= c * d1 * (1 - tol)), 'property',
                      note=f'concentration of the solute in {nb}/{db} equals the target')
+            # a result is only returned for a REACHABLE target: between the concentration of the diluent (0 for a pure
+            # solvent) and that of the stock — anything else must have been refused (C03)
+            nS, dS = conc_of(I, {s: S.amt.get(s, z3.RealVal(0)) for s in allkeys}, allkeys, solute, nb, db)
+            le_S, ge_S = c * dS <= nS * (1 + tol), c * dS * (1 + tol) >= nS
+            if Y is None:
+                reach = [le_S]
+            else:
+                nY, dY = conc_of(I, {s: Y.amt.get(s, z3.RealVal(0)) for s in allkeys}, allkeys, solute, nb, db)
+                le_Y, ge_Y = c * dY <= nY * (1 + tol), c * dY * (1 + tol) >= nY
+                # between the two concentrations, whichever is the larger
+                reach = [z3.Or(z3.And(le_S, ge_Y), z3.And(le_Y, ge_S))]
+            I.oblige('raises[refuse-unreachable]', z3.And(*reach), 'property',
+                     note='a target above the stock\'s concentration (or below the diluent\'s) returned a result instead of ValueError')
             # conservation: residuals + solution = inputs + added pure solvent
             cons = []
             for s in allkeys:
@@ -584,6 +603,7 @@ class CreateSolutionOp(clib.Op):
         out.append(((1,), ('c', 't'), ('mol', 'L'), 'g', 'mL', 'container2e'))
         # concentration AND quantity for every solute (the quantity rows outside the solve are checked by the residual test)
         out.append(((1, 1), ('c', 'q'), ('mol', 'L'), 'g', '-', 'substance'))
+        out.append(((1, 1, 1), ('c', 'q'), ('mol', 'L'), 'g', '-', 'substance'))     # two redundant rows: residuals must not cancel
         return out
 
     def setup(self, I, case, finite=None):
